@@ -4,6 +4,7 @@ import OPModel.Drive.C06
 import OPModel.Drive.C01
 import OPModel.Drive.C08
 import OPModel.Drive.C05
+import OPModel.Drive.C07
 
 open OP
 
@@ -14,6 +15,7 @@ def handle (line : String) : String :=
   | "pcascade" :: args => Drive.pcascade args
   | "cascade" :: args => Drive.cascade args
   | "insert" :: args => Drive.insert args
+  | "pockets" :: args => Drive.pockets args
   | "pinch" :: args => Drive.pinch args
   | "pincht" :: args => Drive.pincht args
   | _ => "bad-op"
